@@ -660,6 +660,13 @@ class Interp:
                 if args[0] is UNK or any(v is UNK for v in kw.values()) and False:
                     return UNK
                 return NPArr(_deep_list(args[0])) if _no_unknown(args[0]) else UNK
+            if isinstance(fn.value, ast.Name) and fn.value.id in ("np", "numpy") and fn.attr in ("round", "around", "round_") and 1 <= len(args) <= 2:
+                dec = kw.get("decimals", args[1] if len(args) == 2 else 0)
+                x_ = args[0]
+                if isinstance(x_, (int, float)) and not isinstance(x_, bool) and isinstance(dec, int) and not isinstance(dec, bool) and set(kw) <= {"decimals"}:
+                    # a Python number: numpy rounds half to even like round(); the result prints like the float
+                    return x_ if isinstance(x_, int) and dec >= 0 else float(round(x_, dec))
+                return UNK
             if isinstance(fn.value, ast.Name) and fn.value.id == "itertools" and fn.attr == "product" and not kw:
                 if any(a is UNK for a in args):
                     return UNK
@@ -696,6 +703,21 @@ class Interp:
                     return getattr(recv, fn.attr)(*args, **kw)
                 if isinstance(recv, NPArr) and fn.attr in ("tolist", "copy"):
                     return _deep_list(recv.data) if fn.attr == "tolist" else NPArr(_deep_list(recv.data))
+                if isinstance(recv, NPArr) and fn.attr == "reshape" and len(recv.shape) in (1, 2) and kw.get("order", "C") == "C":
+                    dims = list(args[0]) if len(args) == 1 and isinstance(args[0], (tuple, list)) else list(args)
+                    flat = list(recv.data) if len(recv.shape) == 1 else [x for row in recv.data for x in row]
+                    if len(dims) == 2 and all(isinstance(d_, int) and not isinstance(d_, bool) for d_ in dims):
+                        r_, c_ = dims
+                        if r_ == -1 and c_ > 0 and len(flat) % c_ == 0:
+                            r_ = len(flat) // c_
+                        if c_ == -1 and r_ > 0 and len(flat) % r_ == 0:
+                            c_ = len(flat) // r_
+                        if r_ >= 0 and c_ >= 0 and r_ * c_ == len(flat):
+                            return NPArr([flat[i * c_:(i + 1) * c_] for i in range(r_)])
+                        raise _Signal("raise")
+                    if len(dims) == 1 and dims[0] in (-1, len(flat)):
+                        return NPArr(flat)
+                    return UNK
                 if isinstance(recv, NPArr) and fn.attr in ("flatten", "ravel") and len(recv.shape) == 2:
                     order = kw.get("order", args[0] if args else "C")
                     rows = recv.data
@@ -863,7 +885,7 @@ def grid_helpers_verdict(ctx, name: str) -> Tuple[str, str]:
     if g is None:
         return "unknown", "helper not found"
     n = 0
-    for R, C in ((1, 1), (2, 3), (3, 2), (8, 12), (26, 2), (1, 12), (4, 1)):
+    for R, C in ((1, 1), (2, 3), (3, 2), (8, 12), (26, 2), (1, 12), (4, 1), (2, 101)):
         kind, val = run_function(g, {g.params[0]: R, g.params[1]: C}, ctx.prog)
         if kind != "return" or not _no_unknown(val.data if isinstance(val, NPArr) else val) or (isinstance(val, dict) and not all(_no_unknown(x) for x in val.values())):
             return "unknown", f"{name}({R}, {C}) could not be evaluated (construct outside the interpreter's fragment)"
